@@ -1,3 +1,336 @@
+(* C09 -- lemmas: list/heap primitives, instance level isolation, exact footprint of a class definition *)
 From Coq Require Import List Arith ZArith Bool Lia.
 Import ListNotations.
 Require Import FV.Gen.C09 FV.C09.Model.
+
+Definition dead : inst := {| i_alive := false; i_acc := [] |}.
+
+(* ---------- lists *)
+Lemma length_set_nth : forall A (l : list A) i x, length (set_nth l i x) = length l.
+Proof. induction l; destruct i; simpl; intros; auto. Qed.
+
+Lemma nth_set_nth_other : forall A (l : list A) i j x d, j <> i -> nth j (set_nth l i x) d = nth j l d.
+Proof.
+  induction l; destruct i; destruct j; simpl; intros; auto; try congruence;
+  try (apply IHl; congruence).
+Qed.
+
+Lemma nth_set_nth_same : forall A (l : list A) i x d, i < length l -> nth i (set_nth l i x) d = x.
+Proof. induction l; destruct i; simpl; intros; auto; try lia; try (apply IHl; lia). Qed.
+
+Lemma nth_app_old : forall A (l r : list A) i d, i < length l -> nth i (l ++ r) d = nth i l d.
+Proof. intros. apply app_nth1. assumption. Qed.
+
+(* ---------- instance level ops *)
+Definition inst_op (o : op) : bool := match o with ODefine _ => false | _ => true end.
+Definition addresses (o : op) (j : nat) : bool :=
+  match o with OSetProp i _ _ _ | OGrow i _ => Nat.eqb i j | _ => false end.
+
+Lemma upd_inst_heap : forall s n f,
+  params (upd_inst s n f) = params s /\ dts (upd_inst s n f) = dts s /\ classes (upd_inst s n f) = classes s.
+Proof. intros; unfold upd_inst; simpl; auto. Qed.
+
+Lemma inst_op_heap : forall s o, inst_op o = true ->
+  params (step s o) = params s /\ dts (step s o) = dts s /\ classes (step s o) = classes s.
+Proof. intros s [d|ci c|i k key v|i m] H; simpl in *; try discriminate; auto using upd_inst_heap. Qed.
+
+Lemma inst_ops_heap : forall ops s, forallb inst_op ops = true ->
+  params (fold_left step ops s) = params s /\ dts (fold_left step ops s) = dts s /\
+  classes (fold_left step ops s) = classes s.
+Proof.
+  induction ops as [|o ops IH]; simpl; intros s H; auto.
+  apply andb_true_iff in H. destruct H as [Ho Hr].
+  destruct (IH (step s o) Hr) as (A & B & C). destruct (inst_op_heap s o Ho) as (A' & B' & C').
+  repeat split; congruence.
+Qed.
+
+Lemma define_insts : forall s d, insts (define s d) = insts s.
+Proof.
+  intros. reflexivity.
+Qed.
+
+Lemma upd_inst_other : forall s n f j, j <> n -> nth j (insts (upd_inst s n f)) dead = nth j (insts s) dead.
+Proof.
+  intros. unfold upd_inst; simpl. destruct (Nat.ltb n (length (insts s))); auto.
+  apply nth_set_nth_other. assumption.
+Qed.
+
+Lemma upd_inst_length : forall s n f, length (insts (upd_inst s n f)) = length (insts s).
+Proof. intros. unfold upd_inst; simpl. destruct (Nat.ltb n (length (insts s))); auto. apply length_set_nth. Qed.
+
+(* no op changes an instance it does not address -- whatever the op is, including class definitions and the creation
+   and configuration of other instances *)
+Lemma other_instances_unchanged : forall s o j,
+  j < length (insts s) -> addresses o j = false -> nth j (insts (step s o)) dead = nth j (insts s) dead.
+Proof.
+  intros s [d|ci c|i k key v|i m] j Hj Ha; unfold step; simpl in Ha.
+  - rewrite define_insts. reflexivity.
+  - unfold instantiate; simpl. apply nth_app_old. assumption.
+  - apply upd_inst_other. apply Nat.eqb_neq in Ha. congruence.
+  - apply upd_inst_other. apply Nat.eqb_neq in Ha. congruence.
+Qed.
+
+Lemma insts_length_mono : forall s o, length (insts s) <= length (insts (step s o)).
+Proof.
+  intros s [d|ci c|i k key v|i m]; unfold step.
+  - rewrite define_insts. lia.
+  - unfold instantiate; simpl. rewrite app_length. simpl. lia.
+  - rewrite upd_inst_length. lia.
+  - rewrite upd_inst_length. lia.
+Qed.
+
+Lemma other_instances_unchanged_hist : forall ops s j,
+  j < length (insts s) -> forallb (fun o => negb (addresses o j)) ops = true ->
+  nth j (insts (fold_left step ops s)) dead = nth j (insts s) dead.
+Proof.
+  induction ops as [|o ops IH]; simpl; intros s j Hj H; auto.
+  apply andb_true_iff in H. destruct H as [Ho Hr]. apply negb_true_iff in Ho.
+  rewrite IH; auto.
+  - apply other_instances_unchanged; assumption.
+  - pose proof (insts_length_mono s o). lia.
+Qed.
+
+(* creating / configuring / mutating instances never changes the description of a class *)
+Lemma class_unchanged_by_instance_ops : forall ops s c, forallb inst_op ops = true ->
+  describe_class (fold_left step ops s) c = describe_class s c.
+Proof.
+  intros. destruct (inst_ops_heap ops s H) as (A & B & C). unfold describe_class. rewrite A, B. reflexivity.
+Qed.
+
+(* an instance created later is the same whatever was done to other instances before *)
+Lemma later_instance_unaffected : forall ops s ci c, forallb inst_op ops = true ->
+  new_inst (fold_left step ops s) ci c = new_inst s ci c.
+Proof.
+  intros. destruct (inst_ops_heap ops s H) as (A & B & C). unfold new_inst. rewrite A, B, C. reflexivity.
+Qed.
+
+(* the new instance is a function of the full description of its class and of its configuration only *)
+Definition describe_full (s : state) (c : cls) : list (name * (acc_desc * bool)) :=
+  map (fun ki => (fst ki, (read (params s) (dts s) (snd ki),
+                           match v_dt (pv (getp (params s) (snd ki))) with Some _ => true | None => false end))) (c_acc c).
+
+Definition inst_acc_spec (c : cfg) (x : name * (acc_desc * bool)) : (name * acc_desc) * bool :=
+  let '(k, (a0, has_dt)) := x in
+  let a1 := {| a_desc := a_desc a0; a_group := a_group a0; a_value := revalidate (a_value a0) (a_dt a0); a_dt := a_dt a0 |} in
+  let '(a2, ok) := fold_left cfg_step (match lookup k c with Some l => l | None => [] end) (a1, true) in
+  let a3 := {| a_desc := a_desc a2; a_group := a_group a2; a_value := revalidate (a_value a2) (a_dt a2); a_dt := a_dt a2 |} in
+  let has_desc := match a_desc a3 with Some _ => true | None => false end in
+  ((k, a3), ok && has_dt && has_desc && dt_consistent (a_dt a3)).
+
+Definition inst_spec (module : bool) (full : list (name * (acc_desc * bool))) (c : cfg) : inst :=
+  let res := map (inst_acc_spec c) full in
+  let known := forallb (fun nc => match lookup (fst nc) full with Some _ => true | None => false end) c in
+  if module && known && forallb snd res then {| i_alive := true; i_acc := map fst res |} else dead.
+
+Lemma lookup_map_some : forall A B (f : nat * A -> B) (l : list (nat * A)) k,
+  match lookup k (map (fun ki => (fst ki, f ki)) l) with Some _ => true | None => false end =
+  match lookup k l with Some _ => true | None => false end.
+Proof.
+  induction l as [|[k' v] l IH]; simpl; intros; auto.
+  destruct (Nat.eqb k k'); auto.
+Qed.
+
+Lemma forallb_ext' : forall A (f g : A -> bool) l, (forall x, f x = g x) -> forallb f l = forallb g l.
+Proof. induction l; simpl; intros; auto. rewrite H, IHl; auto. Qed.
+
+Lemma inst_acc_map_spec : forall ps ds c l,
+  map (inst_acc ps ds c) l =
+  map (inst_acc_spec c) (map (fun ki : name * id => (fst ki, (read ps ds (snd ki),
+         match v_dt (pv (getp ps (snd ki))) with Some _ => true | None => false end))) l).
+Proof.
+  intros. rewrite map_map. apply map_ext. intros [n i]. unfold inst_acc, inst_acc_spec. simpl. reflexivity.
+Qed.
+
+Lemma new_inst_is_spec : forall s ci c, ci < length (classes s) ->
+  new_inst s ci c = inst_spec (c_module (nth ci (classes s) cls0)) (describe_full s (nth ci (classes s) cls0)) c.
+Proof.
+  intros s ci c Hci. unfold new_inst, inst_spec, describe_full.
+  set (k := nth ci (classes s) cls0).
+  apply Nat.ltb_lt in Hci. rewrite Hci. rewrite andb_true_r.
+  rewrite inst_acc_map_spec.
+  assert (K : forallb (fun nc : nat * list (nat * Z) => match lookup (fst nc) (c_acc k) with Some _ => true | None => false end) c =
+              forallb (fun nc : nat * list (nat * Z) => match lookup (fst nc) (map (fun ki : name * id => (fst ki, (read (params s) (dts s) (snd ki),
+                     match v_dt (pv (getp (params s) (snd ki))) with Some _ => true | None => false end))) (c_acc k))
+                                 with Some _ => true | None => false end) c).
+  { apply forallb_ext'. intros [n l]. simpl. symmetry.
+    apply (lookup_map_some _ _ (fun ki : name * id => (read (params s) (dts s) (snd ki),
+                     match v_dt (pv (getp (params s) (snd ki))) with Some _ => true | None => false end))). }
+  rewrite K. reflexivity.
+Qed.
+
+(* ---------- exact footprint of a class definition on the objects that exist already *)
+Definition Inv (np nd : nat) (h0 : heap) (Fp Fd : list id) (h : heap) : Prop :=
+  np <= length (fst h) /\ nd <= length (snd h) /\
+  (forall i, i < np -> ~ In i Fp -> getp (fst h) i = getp (fst h0) i) /\
+  (forall i, i < nd -> ~ In i Fd -> getd (snd h) i = getd (snd h0) i).
+
+Lemma Inv_weaken : forall np nd h0 Fp Fd Fp' Fd' h,
+  Inv np nd h0 Fp Fd h -> incl Fp Fp' -> incl Fd Fd' -> Inv np nd h0 Fp' Fd' h.
+Proof.
+  intros * (A & B & C & D) Ip Id. repeat split; auto.
+Qed.
+
+Lemma Inv_alloc_dt : forall np nd h0 Fp Fd h d, Inv np nd h0 Fp Fd h -> Inv np nd h0 Fp Fd (fst (alloc_dt h d)).
+Proof.
+  intros * (A & B & C & D). unfold alloc_dt. repeat split; simpl; auto.
+  - rewrite app_length. lia.
+  - intros i Hi Hn. unfold getd. rewrite app_nth1 by lia. apply D; auto.
+Qed.
+
+Lemma Inv_alloc_p : forall np nd h0 Fp Fd h c, Inv np nd h0 Fp Fd h -> Inv np nd h0 Fp Fd (fst (alloc_p h c)).
+Proof.
+  intros * (A & B & C & D). unfold alloc_p. repeat split; simpl; auto.
+  - rewrite app_length. lia.
+  - intros i Hi Hn. unfold getp. rewrite app_nth1 by lia. apply C; auto.
+Qed.
+
+Lemma Inv_set_dt : forall np nd h0 Fp Fd h j d, Inv np nd h0 Fp Fd h -> Inv np nd h0 Fp (j :: Fd) (set_dt h j d).
+Proof.
+  intros * (A & B & C & D). unfold set_dt. repeat split; simpl; auto.
+  - rewrite length_set_nth. assumption.
+  - intros i Hi Hn. unfold getd. rewrite nth_set_nth_other; [apply D; tauto | intro; apply Hn; left; congruence].
+Qed.
+
+Lemma Inv_set_pv : forall np nd h0 Fp Fd h j v, Inv np nd h0 Fp Fd h -> Inv np nd h0 (j :: Fp) Fd (set_pv h j v).
+Proof.
+  intros * (A & B & C & D). unfold set_pv. repeat split; simpl; auto.
+  - rewrite length_set_nth. assumption.
+  - intros i Hi Hn. unfold getp. rewrite nth_set_nth_other; [apply C; tauto | intro; apply Hn; left; congruence].
+Qed.
+
+Lemma Inv_new_param : forall np nd h0 Fp Fd h s, Inv np nd h0 Fp Fd h -> Inv np nd h0 Fp Fd (fst (new_param h s)).
+Proof.
+  intros * H. unfold new_param.
+  destruct (s_dt s) as [d|].
+  - destruct (alloc_dt h _) as [h' i] eqn:E.
+    assert (H1 : Inv np nd h0 Fp Fd h') by (replace h' with (fst (alloc_dt h (dt_set_opt (dt_set_opt (dt_set_opt d 3 (s_min s)) 4 (s_max s)) 5 (s_unit s)))) by (rewrite E; reflexivity); apply Inv_alloc_dt; assumption).
+    destruct (s_inherit s); apply Inv_alloc_p; assumption.
+  - destruct (s_inherit s).
+    + apply Inv_alloc_p; assumption.
+    + destruct (alloc_dt h dt0) as [h2 i2] eqn:E.
+      assert (H1 : Inv np nd h0 Fp Fd h2) by (replace h2 with (fst (alloc_dt h dt0)) by (rewrite E; reflexivity); apply Inv_alloc_dt; assumption).
+      apply Inv_alloc_p; assumption.
+Qed.
+
+Lemma Inv_new_entry : forall np nd h0 Fp Fd hd ne,
+  Inv np nd h0 Fp Fd (fst hd) -> Inv np nd h0 Fp Fd (fst (new_entry hd ne)).
+Proof.
+  intros np nd h0 Fp Fd [h d] [n e] H. simpl in *. destruct e as [s|z|]; simpl; auto.
+  destruct (new_param h s) as [h' i] eqn:E. simpl.
+  replace h' with (fst (new_param h s)) by (rewrite E; reflexivity). apply Inv_new_param. assumption.
+Qed.
+
+Lemma Inv_new_entries : forall np nd h0 Fp Fd l hd,
+  Inv np nd h0 Fp Fd (fst hd) -> Inv np nd h0 Fp Fd (fst (fold_left new_entry l hd)).
+Proof. induction l; simpl; intros; auto. apply IHl. apply Inv_new_entry. assumption. Qed.
+
+Lemma Inv_write_dtprops : forall np nd h0 Fp Fd h d M, Inv np nd h0 Fp Fd h ->
+  Inv np nd h0 Fp (if has_dtprops M then d :: Fd else Fd) (write_dtprops h d M).
+Proof.
+  intros. unfold write_dtprops. destruct (has_dtprops M); auto. apply Inv_set_dt. assumption.
+Qed.
+
+Definition merge_wd (h : heap) (w : id) (M : mprops) (Fd : list id) : list id :=
+  match m_dt M, v_dt (pv (getp (fst h) w)) with
+  | None, Some d0 => if has_dtprops M then d0 :: Fd else Fd
+  | _, _ => Fd
+  end.
+
+Lemma Inv_merge_cell : forall np nd h0 Fp Fd h w M, Inv np nd h0 Fp Fd h ->
+  Inv np nd h0 (w :: Fp) (merge_wd h w M Fd) (merge_cell h w M).
+Proof.
+  intros * H. unfold merge_cell, merge_wd.
+  destruct (m_dt M) as [d|].
+  - destruct (alloc_dt h _) as [h1 i] eqn:E.
+    apply Inv_set_pv. replace h1 with (fst (alloc_dt h (apply_dtprops (getd (snd h) d) M))) by (rewrite E; reflexivity).
+    apply Inv_alloc_dt. assumption.
+  - destruct (v_dt (pv (getp (fst h) w))) as [d0|].
+    + apply Inv_set_pv. apply Inv_write_dtprops. assumption.
+    + apply Inv_set_pv. assumption.
+Qed.
+
+Definition clone_wd (M : mprops) (Fd : list id) : list id :=
+  match m_dt M with Some d => if has_dtprops M then d :: Fd else Fd | None => Fd end.
+
+Lemma Inv_clone_cell : forall np nd h0 Fp Fd h w M z, Inv np nd h0 Fp Fd h ->
+  Inv np nd h0 Fp (clone_wd M Fd) (fst (clone_cell h w M z)).
+Proof.
+  intros * H. unfold clone_cell, clone_wd.
+  set (h1 := match m_dt M with Some d => write_dtprops h d M | None => h end).
+  assert (H1 : Inv np nd h0 Fp (match m_dt M with Some d => if has_dtprops M then d :: Fd else Fd | None => Fd end) h1).
+  { unfold h1. destruct (m_dt M); auto. apply Inv_write_dtprops. assumption. }
+  destruct (v_dt (pv (getp (fst h) w))).
+  - destruct (alloc_dt h1 _) as [h' i1] eqn:E.
+    apply Inv_alloc_p. replace h' with (fst (alloc_dt h1 (rd_dt (snd h1) (m_dt M)))) by (rewrite E; reflexivity).
+    apply Inv_alloc_dt. assumption.
+  - apply Inv_alloc_p. assumption.
+Qed.
+
+Lemma Inv_resolve_name : forall np nd h0 cs mro r k,
+  Inv np nd h0 (r_wp r) (r_wd r) (r_heap r) ->
+  Inv np nd h0 (r_wp (resolve_name cs mro r k)) (r_wd (resolve_name cs mro r k)) (r_heap (resolve_name cs mro r k)).
+Proof.
+  intros * H. unfold resolve_name.
+  destruct (w_acc (walk (fst (r_heap r)) cs mro k)) as [wid|]; auto.
+  destruct (w_ov (walk (fst (r_heap r)) cs mro k)) as [[z|]|]; auto.
+  - destruct (clone_cell (r_heap r) wid _ z) as [h' n] eqn:E. simpl.
+    replace h' with (fst (clone_cell (r_heap r) wid (w_M (walk (fst (r_heap r)) cs mro k)) z)) by (rewrite E; reflexivity).
+    apply Inv_clone_cell. assumption.
+  - simpl. apply (Inv_merge_cell np nd h0 (r_wp r) (r_wd r) (r_heap r) wid). assumption.
+Qed.
+
+Lemma Inv_resolve_names : forall np nd h0 cs mro l r,
+  Inv np nd h0 (r_wp r) (r_wd r) (r_heap r) ->
+  Inv np nd h0 (r_wp (fold_left (resolve_name cs mro) l r)) (r_wd (fold_left (resolve_name cs mro) l r))
+      (r_heap (fold_left (resolve_name cs mro) l r)).
+Proof. induction l; simpl; intros; auto. apply IHl. apply Inv_resolve_name. assumption. Qed.
+
+Lemma Inv_define_core : forall s d,
+  Inv (length (params s)) (length (dts s)) (params s, dts s)
+      (r_wp (define_core s d)) (r_wd (define_core s d)) (r_heap (define_core s d)).
+Proof.
+  intros. unfold define_core.
+  pose proof (Inv_new_entries (length (params s)) (length (dts s)) (params s, dts s) [] [] (d_dict d) ((params s, dts s), [])) as H0.
+  destruct (fold_left new_entry (d_dict d) (params s, dts s, [])) as [h1 dict1]. simpl in H0.
+  assert (H1 : Inv (length (params s)) (length (dts s)) (params s, dts s) [] [] h1).
+  { apply H0. repeat split; simpl; auto. }
+  destruct (d_module d).
+  - apply Inv_resolve_names. simpl. assumption.
+  - simpl. assumption.
+Qed.
+
+(* what a class definition leaves alone: every existing Parameter / datatype object outside its footprint *)
+Lemma define_frame : forall s d,
+  (forall i, i < length (params s) -> ~ In i (fst (footprint s d)) -> getp (params (define s d)) i = getp (params s) i) /\
+  (forall j, j < length (dts s) -> ~ In j (snd (footprint s d)) -> getd (dts (define s d)) j = getd (dts s) j) /\
+  length (params s) <= length (params (define s d)) /\ length (dts s) <= length (dts (define s d)).
+Proof.
+  intros. destruct (Inv_define_core s d) as (A & B & C & D). unfold footprint, define; simpl. repeat split; auto.
+Qed.
+
+(* an accessible object is in range and its datatype object, if any, too *)
+Definition acc_ok (s : state) (i : id) : Prop :=
+  i < length (params s) /\ forall j, v_dt (pv (getp (params s) i)) = Some j -> j < length (dts s).
+
+Definition untouched (s : state) (d : cdef) (i : id) : Prop :=
+  ~ In i (fst (footprint s d)) /\ forall j, v_dt (pv (getp (params s) i)) = Some j -> ~ In j (snd (footprint s d)).
+
+Lemma read_unchanged : forall s d i, acc_ok s i -> untouched s d i ->
+  read (params (define s d)) (dts (define s d)) i = read (params s) (dts s) i.
+Proof.
+  intros s d i [Hi Hd] [Ui Ud]. destruct (define_frame s d) as (A & B & _).
+  unfold read. rewrite (A i Hi Ui).
+  destruct (v_dt (pv (getp (params s) i))) as [j|] eqn:E; unfold rd_dt; auto.
+  rewrite (B j (Hd j eq_refl) (Ud j eq_refl)). reflexivity.
+Qed.
+
+Lemma class_unchanged_by_define : forall s d c,
+  (forall k i, In (k, i) (c_acc c) ->
+     acc_ok s i /\ (untouched s d i \/ read (params (define s d)) (dts (define s d)) i = read (params s) (dts s) i)) ->
+  describe_class (define s d) c = describe_class s c.
+Proof.
+  intros s d c H. unfold describe_class. apply map_ext_in. intros [k i] Hin. cbn [fst snd].
+  destruct (H k i Hin) as [Ok [U|R]].
+  - rewrite read_unchanged; auto.
+  - rewrite R. reflexivity.
+Qed.
